@@ -406,7 +406,7 @@ Section Sim.
     inversion Ec; subst groups. clear Ec.
     destruct (collect_sim S D E Hconds fuel ot sels [] [] v flat Hcs Ef) as [Hci Hsubs].
     unfold exec_selections_raw, collect_fields. rewrite Hmemo, Hci.
-    rewrite (collect_errs_nil_conds S D E Hconds fuel ot sels [] Hcs), add_errs_nil.
+    rewrite (collect_errs_nil_conds S D E Hconds fuel ot sels [] Hcs), report_errs_nil.
     set (g := append_flat flat []) in *.
     assert (Hg : to_spec g = s_group flat) by apply to_spec_group.
     rewrite <- Hg in Hok |- *.
